@@ -263,6 +263,26 @@ def c01_custom(pid, tier, plan, scr, hbin, specdir):
                 gvars.append(b[:i + 1] + [{"a": "Crash"}, {"a": "Restart"}] + b[i + 1:])
     if gvars:
         twin(gvars, "twin-goals", "tlc-coverage-goals (rolled-back writes) x crash before the dependent step on replicas A/B/C")
+    # (4) wall-clock independence: model time 0 is placed so that a stream's deposit-zero time and an order's decision
+    #     deadline lie a few seconds AFTER the real clock; replica A executes at once (before them), replicas C and B
+    #     only after they have passed.  Code that consults the node's clock instead of the block time diverges.
+    import time as _time
+    now = int(_time.time())
+    t0 = now + 5 - 61          # the deadlines are at model second 61 = wall clock now + 5 s
+    g = {"accts": ["A1", "A2", "A3"], "bal": {a: {"nund": 500, "other": 300} for a in ("A1", "A2", "A3")},
+         "ent": {"signers": ["A1"], "min": 1, "limit": 60, "denom": "nund", "wl": ["A3"], "startId": 1},
+         "wrk": {"feeReg": 4, "feeRec": 1, "feePur": 1, "denom": "nund", "def": 1, "max": 3, "startId": 1},
+         "bcn": {"feeReg": 4, "feeRec": 1, "feePur": 1, "denom": "nund", "def": 2, "max": 3, "startId": 1},
+         "str": {"feeNum": 1, "feeDen": 10}, "t0unix": t0, "waitUntil": now + 7}
+    tx = lambda *msgs: {"a": "DeliverTx", "msgs": list(msgs)}
+    blk = lambda dt, *txs: [{"a": "BeginBlock", "dt": dt}] + list(txs) + [{"a": "EndBlock"}, {"a": "Commit"}]
+    wall = [{"a": "InitChain", "g": g}] + blk(1000, tx({"t": "SCreate", "sender": "A1", "receiver": "A2", "dep": 60, "denom": "nund", "rate": 1}),
+                                              tx({"t": "Raise", "pur": "A3", "amt": 5, "denom": "nund"})) \
+        + blk(10000, tx({"t": "STopUp", "sender": "A1", "receiver": "A2", "dep": 60, "denom": "nund"}), tx({"t": "SClaim", "sender": "A1", "receiver": "A2"})) \
+        + blk(1000, tx({"t": "SRate", "sender": "A1", "receiver": "A2", "rate": 2}), tx({"t": "Decide", "signer": "A1", "id": 1, "d": "accept"})) \
+        + blk(1000) + blk(1000, tx({"t": "SCancel", "sender": "A1", "receiver": "A2"})) + blk(1000)
+    twin([wall], "twin-wallclock", "scripted: deadlines a few seconds after the wall clock; replica A before, replicas B/C after")
+    cov["wall_clock_scenarios"] = 1
     violations, known_hits = classify(pid, recs, cov, scr, specdir)
     return cov, violations, known_hits
 
